@@ -105,6 +105,12 @@ class Taint:
                             labels |= self.t.get((c.key, 0), set())
                     if self._add(self._var_of_place(b, pl), labels):
                         changed = True
+                    if labels and pl["p"] and pl["p"][0]["k"] == "deref":
+                        # store through a pointer: whatever the pointer was derived from holds the value too
+                        # (vec![x] writes through a raw copy of the box pointer)
+                        for src in self._ptr_sources(b, pl["l"]):
+                            if self._add((b.key, src), labels):
+                                changed = True
                 for c in b.calls():
                     summ = self.summaries(c) if self.summaries else None
                     arg_t = [self.op_taint(b, a) for a in c.args]
@@ -159,6 +165,29 @@ class Taint:
                     if self._add(self._var_of_place(b, c.dest), labels):
                         changed = True
         return self
+
+    def _ptr_sources(self, b, l):
+        out = []
+        seen = set()
+        cur = l
+        for _ in range(8):
+            if cur in seen:
+                break
+            seen.add(cur)
+            full = [d for d in b.defs().get(cur, []) if d[0] in ("assign", "call", "arg")]
+            if len(full) != 1 or full[0][0] != "assign":
+                break
+            rv = full[0][3]
+            src = None
+            if rv["rv"] in ("use", "cast"):
+                src = F.op_place(rv["op"])
+            elif rv["rv"] in ("ref", "rawptr"):
+                src = rv["pl"]
+            if src is None:
+                break
+            out.append(src["l"])
+            cur = src["l"]
+        return out
 
     def _mut_target(self, b, op):
         """variables a &mut argument may point to: the temp itself and the place it borrows"""
